@@ -320,6 +320,9 @@ func oracle(c Case) vkit.Outcome {
 		}
 	}
 	if orig.Error != nil {
+		if os.Getenv("C33_DEBUG") != "" {
+			fmt.Printf("ORIG-THROWS %s: %s\n%s\n", orig.Error.Cls, orig.Error.Msg, c.Src)
+		}
 		out.Labels = append(out.Labels, "original throws "+orig.Error.Cls)
 	}
 	if len(renamed) > 1 {
@@ -443,7 +446,8 @@ func diagnose(c Case, variant, kind, minified string, r runResult) string {
 	pc, rc := wordCounts(plain), wordCounts(minified)
 	renamedNames := map[string]bool{}
 	for n, k := range pc {
-		if rc[n] < k {
+		// fewer bare occurrences, or a shorthand {n} expanded to {n:short}
+		if rc[n] < k || strings.Count(minified, n+":") > strings.Count(plain, n+":") {
 			renamedNames[n] = true
 		}
 	}
